@@ -7,6 +7,7 @@
 //   managed         T0 constructs ManagedThread t(f); f: started=1; wait(go); done=1.  T0 samples s=started, a=t.isActive(), d=done;
 //                   then go=1, join, isActive() again
 //   managed-observer as above, but a third thread that is handed &t does the sampling
+//   managed-short   the thread function finishes at once (possibly before the creator has left the constructor); join; isActive()
 // oracle per execution: X constructed exactly once, every caller got the same object and sees it fully constructed;
 //   (s==1 and d==0) => a==true; after join isActive()==false; no data race (vector-clock detector over all instrumented accesses,
 //   a plain write racing with an atomic access to the same byte counts); no deadlock.
@@ -71,10 +72,21 @@ static void body_managed_observer() {
    t->~ManagedThread();
 }
 
+// a thread function that finishes at once: it may be over before the creator has left the constructor; whatever the timing,
+// after join the thread must be reported inactive (and while it provably runs, active)
+static void short_fn() { g_started.store(1); g_done.store(1); }
+static void body_managed_short() {
+   auto* t = new (g_mt_storage) celma::common::ManagedThread(short_fn);
+   sample(t, "creator");
+   t->join();
+   if (t->isActive()) xs::fail("joined-thread-reported-active", "isActive() is true after the (short) thread function returned and the thread was joined");
+   xs::observe(t->isActive() ? "after-join active" : "after-join inactive");
+   t->~ManagedThread();
+}
 struct Scen { const char* name; xs::Body body; int bound_quick, bound_thorough; };
 static const Scen scens[] = {
    {"singleton2", body_singleton2, 2, 4}, {"singleton-twice", body_singleton_twice, 2, 3}, {"singleton3", body_singleton3, 2, 3},
-   {"managed", body_managed, 3, 5}, {"managed-observer", body_managed_observer, 2, 3},
+   {"managed", body_managed, 3, 5}, {"managed-observer", body_managed_observer, 2, 3}, {"managed-short", body_managed_short, 3, 5},
 };
 
 #ifdef XS_FREE_RUNNING
